@@ -4,3 +4,11 @@ claim('C03', 'exhaustive multi-affine grid (exact Fractions) + Hypothesis genera
       'Decides the polynomial identities completely on a finite grid that suffices for multi-affine straight-line code, and samples ~24k (quick) / 500k (thorough) float cases against an exact rational Bernstein reference with a stated rounding bound.',
       'Trusts: the rational reference in vp/ref/bez_ref.py; the reading that point/poly/derivative are branch-free polynomial code; tolerance 512*eps*sum|P_i|.',
       'DESIGN.md 2/C03')
+claim('C01', 'Hypothesis-generated paths x all 8 option combinations; round-trip oracle parse_path(d()) with exact / running-rounding-bound comparison',
+      'Round-trip search over ~24k (quick) / 300k (thorough) structured paths, every path under all 8 serialiser options; absolute form compared with library equality, relative form against an explicit accumulated rounding bound; d-strings additionally scanned by an independent SVG grammar tokenizer.',
+      'Trusts: vp/ref/svgpath_ref.py tokenizer; relative-form tolerance model (DESIGN 2/C01); generator classes listed in the evidence counters.',
+      'DESIGN.md 2/C01')
+claim('C02', 'exhaustive enumeration of command programs (length<=3/4) + Hypothesis-generated programs and spellings, differential against a reference SVG path interpreter; metamorphic re-spelling',
+      'Every program M+<=3 commands over the 20 letters (quick; <=4 thorough) and ~20k/400k generated longer programs are parsed by the library and by an independent interpreter written from the SVG grammar; results must be equal segment for segment, and two spellings of one program must parse equal.',
+      'Trusts: vp/ref/svgpath_ref.py (scanner+interpreter, self-checked against the printer on every case); Arc construction delegated to the library constructor (C04).',
+      'DESIGN.md 2/C02')
